@@ -565,6 +565,12 @@ func runSFW(rc *sk.RunCtx, focus string) {
 			}
 		case 2: // an address outside V's networks
 			nets = append(nets, netip.PrefixFrom(netip.AddrFrom4([4]byte{10, 77, 0, byte(i + 1)}), 24))
+		case 3:
+			if tp.Chance(1, 2) {
+				// no address inside V's networks at all (a relay- or lighthouse-only peer of another network):
+				// nothing it sends carries an address V may accept
+				nets = []netip.Prefix{netip.PrefixFrom(netip.AddrFrom4([4]byte{10, 77, 0, byte(i + 1)}), 24)}
+			}
 		}
 		var unsafe []netip.Prefix
 		if tp.Chance(1, 3) {
@@ -656,6 +662,7 @@ func runSFW(rc *sk.RunCtx, focus string) {
 		steps = 300 + tp.Choose(1500)
 	}
 	lastCacheClear := sw.now
+	prevIn, prevOut := slices.Clone(ref.in), slices.Clone(ref.out)
 	var recent []firewall.Packet
 	var recentPeer []*fwPeer
 	var recentDir []bool
@@ -706,7 +713,12 @@ func runSFW(rc *sk.RunCtx, focus string) {
 			sw.runUntil(sw.now + d)
 			rc.Count("ev.clock_advance", 1)
 		case 2: // reload
-			switch tp.Choose(8) {
+			switch tp.Choose(9) {
+			case 8: // back to the rule sets in force before the last change (A -> B -> A): what B made the node forget stays forgotten
+				nin, nout := prevIn, prevOut
+				prevIn, prevOut = slices.Clone(ref.in), slices.Clone(ref.out)
+				w.applyRules(nin, nout, false)
+				rc.Count("op.reload_revert", 1)
 			case 6, 7: // same rules, other idle timeouts: tracked flows stay tracked, the new timeouts apply from their next packet
 				was := [3]time.Duration{ref.tcpT, ref.udpT, ref.defT}
 				ref.tcpT = time.Duration(1+tp.Choose(20)) * time.Second
@@ -745,6 +757,7 @@ func runSFW(rc *sk.RunCtx, focus string) {
 					i := tp.Choose(len(nout))
 					nout = append(nout[:i], nout[i+1:]...)
 				}
+				prevIn, prevOut = slices.Clone(ref.in), slices.Clone(ref.out)
 				w.applyRules(nin, nout, false)
 			case 2: // add one rule
 				nin, nout := slices.Clone(ref.in), slices.Clone(ref.out)
@@ -753,9 +766,11 @@ func runSFW(rc *sk.RunCtx, focus string) {
 				} else {
 					nout = append(nout, w.genRule(false))
 				}
+				prevIn, prevOut = slices.Clone(ref.in), slices.Clone(ref.out)
 				w.applyRules(nin, nout, false)
 			case 3: // new rule sets
 				nin, nout := w.genRules()
+				prevIn, prevOut = slices.Clone(ref.in), slices.Clone(ref.out)
 				w.applyRules(nin, nout, false)
 			}
 			// right after the reload: packets of flows seen recently, mostly in the direction opposite to the one last
@@ -1012,7 +1027,7 @@ func buildInner(fp firewall.Packet, incoming bool, id uint64) []byte {
 		src, dst = fp.RemoteAddr, fp.LocalAddr
 		sp, dp = fp.RemotePort, fp.LocalPort
 	}
-	return simUDP4(src, dst, sp, dp, markerPayload(id, 0))
+	return simUDP(src, dst, sp, dp, markerPayload(id, 0))
 }
 
 func (w *sfwWorld) installRealPathOracle() {
@@ -1084,6 +1099,12 @@ func (w *sfwWorld) realInbound(p *fwPeer, fp firewall.Packet) {
 		return // the tunnel is not complete at both ends right now (teardown/re-establishment in progress)
 	}
 	fp.Protocol, fp.Fragment = firewall.ProtoUDP, false // the crafted inner packet is plain UDP
+	if w.tp.Chance(1, 8) && fp.RemoteAddr.Is4() && fp.LocalAddr.Is4() {
+		// an IPv6 packet whose addresses are the IPv4-mapped spelling of certified IPv4 addresses: no certificate
+		// lists those IPv6 addresses
+		fp.RemoteAddr, fp.LocalAddr = netip.AddrFrom16(fp.RemoteAddr.As16()), netip.AddrFrom16(fp.LocalAddr.As16())
+		w.stats["fault.inner_v4_mapped_v6"]++
+	}
 	w.pktSeq++
 	id := uint64(pi)<<32 | w.pktSeq&0xffffffff
 	inner := buildInner(fp, true, id)
